@@ -3,12 +3,15 @@ package c18
 import (
 	"fmt"
 
+	asmenum "github.com/llir/llvm/asm/enum"
 	"github.com/llir/llvm/ir"
 	"github.com/llir/llvm/ir/constant"
 	"github.com/llir/llvm/ir/enum"
 	"github.com/llir/llvm/ir/metadata"
 	"github.com/llir/llvm/ir/types"
 	"github.com/llir/llvm/ir/value"
+
+	"verif/harness/mbt"
 )
 
 // A site is a grammatical position of a keyword family in a module: how to
@@ -166,6 +169,14 @@ func firstFuncAttr(f *ir.Func) (uint64, error) {
 			return uint64(e), nil
 		}
 	}
+	// the parser may hold a keyword in a richer attribute type (`uwtable` becomes ir.UnwindTable): such an
+	// attribute denotes the enum value whose keyword it prints (decided by the real FromString table)
+	if len(f.FuncAttrs) == 1 {
+		var v uint64
+		if _, p := mbt.Guard(func() { v = uint64(asmenum.FuncAttrFromString(f.FuncAttrs[0].String())) }); !p {
+			return v, nil
+		}
+	}
 	return 0, fmt.Errorf("no enum function attribute among %d attributes", len(f.FuncAttrs))
 }
 
@@ -190,6 +201,30 @@ func mdSite(fam, name, named string, build func(v uint64) []metadata.Definition,
 
 func file() *metadata.DIFile {
 	return &metadata.DIFile{MetadataID: -1, Filename: "a.c", Directory: "/"}
+}
+
+// checksumSite: the checksum must have the length the kind demands (32, 40 or 64 hex digits).
+func checksumSite() site {
+	s := site{Fam: "ChecksumKind", Name: "DIFile.checksumkind"}
+	for _, n := range []int{32, 40, 64} {
+		n := n
+		s.Shapes = append(s.Shapes, shape{fmt.Sprintf("checksum of %d digits", n), func(v uint64) *ir.Module {
+			sum := ""
+			for len(sum) < n {
+				sum += "d41d8cd98f00b204"
+			}
+			return mdModule("n", &metadata.DIFile{MetadataID: -1, Filename: "a.c", Directory: "/", Checksumkind: enum.ChecksumKind(v), Checksum: sum[:n]})
+		}, func(m *ir.Module) (uint64, error) {
+			if len(m.MetadataDefs) != 1 {
+				return 0, fmt.Errorf("%d metadata definitions", len(m.MetadataDefs))
+			}
+			if b, ok := m.MetadataDefs[0].(*metadata.DIFile); ok {
+				return uint64(b.Checksumkind), nil
+			}
+			return 0, fmt.Errorf("parsed node is %T", m.MetadataDefs[0])
+		}})
+	}
+	return s
 }
 
 func sites() []site {
@@ -441,14 +476,7 @@ func sites() []site {
 			}
 			return 0, fmt.Errorf("parsed node is %T", d)
 		}),
-		mdSite("ChecksumKind", "DIFile.checksumkind", "n", func(v uint64) []metadata.Definition {
-			return []metadata.Definition{&metadata.DIFile{MetadataID: -1, Filename: "a.c", Directory: "/", Checksumkind: enum.ChecksumKind(v), Checksum: "d41d8cd98f00b204e9800998ecf8427e"}}
-		}, func(d metadata.Definition) (uint64, error) {
-			if b, ok := d.(*metadata.DIFile); ok {
-				return uint64(b.Checksumkind), nil
-			}
-			return 0, fmt.Errorf("parsed node is %T", d)
-		}),
+		checksumSite(),
 		mdSite("DwarfVirtuality", "DISubprogram.virtuality", "n", func(v uint64) []metadata.Definition {
 			return []metadata.Definition{&metadata.DISubprogram{MetadataID: -1, Name: "f", Virtuality: enum.DwarfVirtuality(v)}}
 		}, func(d metadata.Definition) (uint64, error) {
